@@ -117,6 +117,7 @@ class Repo:
         tree = ast.parse(self.source(modname))
         from . import loops as _loops, zarr as _zarr
         tree = _loops.LenRewriter().visit(tree)
+        tree = _loops.CompoundConditionRewriter().visit(tree)
         for (fq, ks) in self.loop_contracts.items():
             fmod, fname = fq.rsplit(".", 1)
             if fmod == modname:
@@ -125,6 +126,9 @@ class Repo:
                         _loops.instrument_function(st, fq, set(ks))
         ast.fix_missing_locations(tree)
         ns["__d3vc_len__"] = _zarr.d3vc_len
+        ns["__d3vc_and__"] = _loops.d3vc_and
+        ns["__d3vc_or__"] = _loops.d3vc_or
+        ns["__d3vc_not__"] = _loops.d3vc_not
         ns["__d3vc_loop__"] = _loops.loop_hook
         ns["min"] = _zarr.model_min
         ns["max"] = _zarr.model_max
